@@ -191,3 +191,42 @@ def check(ctx):
                     if a > 1e-8 and np.abs(fc).max() > 0:
                         ctx.fail("oracle", f"C01/oracle/fit/order{k}", f"fitted fc{k} of {sc['name']} (orders {orders}, random data) is not permutation symmetric ({a:.3e})",
                                  replay={"cell": sc["name"], "orders": orders, "order": k, "asymmetry": a}, has_input=True)
+
+    # ---------------- fitted (not only basis) tensors on supercells with a lattice translation of order >= 3 and a non-empty
+    # third-order basis: the solvers' own expansion of the full output is part of what the user receives
+    fit_cells = [("tri2_P1", (3, 1, 1))] + ([] if ctx.quick else [("mono_P", (1, 3, 1)), ("tri2_P1", (1, 1, 4)), ("tri3_P1", (1, 3, 1))])
+    for cname, diag in fit_cells:
+        sc = make_supercell(base_cells()[cname], diag, rng=rng, shuffle=True)
+        N = len(sc["numbers"])
+        at = atoms_of(sc)
+        for orders in ([2, 3], [3], [2]):
+            d, f = random_dataset(rng, 70, N)
+            o = Symfc(at, displacements=d, forces=f).compute_basis_set(orders=orders)
+            if any(b.basis_set.shape[1] == 0 for b in o.basis_set.values()):
+                continue
+            for compact in (False, True):
+                try:
+                    o.solve(orders=orders, is_compact_fc=compact)
+                except np.linalg.LinAlgError:
+                    ctx.count("fit-underdetermined-raised")
+                    break
+                for k, fc in o.force_constants.items():
+                    fc = np.asarray(fc)
+                    if compact:
+                        # expand the compact tensor with the translations before testing the symmetry
+                        b = o.basis_set[k]
+                        tp = np.asarray(b.translation_permutations)
+                        p2s = list(map(int, b.p2s_map))
+                        full = np.zeros((N,) * k + (3,) * k)
+                        for t in tp:
+                            for r, p in enumerate(p2s):
+                                idx = np.ix_(*([t] * (k - 1)))
+                                full[(t[p],) + tuple(idx)] = fc[r]
+                        fc = full
+                    a, pi = perm_asym(fc, k)
+                    ctx.case({"cell": sc["name"], "fit": orders, "order": k, "compact": compact}, nontrivial=True)
+                    ctx.count("cell-fit-order3-translations")
+                    if a > 1e-8 and np.abs(fc).max() > 0:
+                        ctx.fail("oracle", f"C01/oracle/fit/order{k}", f"fitted fc{k} of {sc['name']} (orders {orders}, {'compact, expanded by translations' if compact else 'full'} output) is not permutation symmetric ({a:.3e})",
+                                 replay={"cell": sc["name"], "lattice": sc["lattice"].tolist(), "positions": sc["positions"].tolist(), "numbers": list(map(int, sc["numbers"])),
+                                         "orders": orders, "order": k, "compact": compact, "asymmetry": a}, has_input=True)
